@@ -631,3 +631,31 @@ package proxy
 //@   loop 1 invariant u != nil ==> (exists(k, 0, #i, u == p.Upstreams[k] && okUp(k)) && longestMatch == len(u.From()))
 //@   loop 1 invariant u == nil ==> longestMatch == 0
 //@   loop 1 invariant forall(k, 0, #i, okUp(k) ==> longestMatch >= len(p.Upstreams[k].From()))
+
+//@ unit reverse_proxy_rest_sweep props=C19,C04 files=reverseproxy.go nilchecks=on nonnil_params=on exclude=`proxy\.ReverseProxy\)\.ServeHTTP$|proxy\.(copyHeader|singleJoiningSlash|isWebsocket|pooledIoCopy|skipTerminalControlCharacters|shallowCopyTrailers|requestIsWebsocket)$|NewSingleHostReverseProxy\$1` filter=`.`
+//@ // the rest of reverseproxy.go (constructors, dial helpers, hijacked-connection replay, flush-latency writer, port
+//@ // stripping): safety sweep on configuration data and on bytes from the backend
+//@ use @verif/specs/stdlib.spec:stdlib
+//@ use @verif/specs/stdlib.spec:time_sinks
+//@ // the package's default dialer is made by its initialiser (assumed state fact)
+//@ invariant defaultDialer != nil
+//@ // a unix-socket backend's dial target is the text after "unix:" of the backend URL as printed
+//@ func socketDial
+//@   requires [unix_url_as_printed] len(hostName) >= 5
+//@ func socketDial$1
+//@   requires len(hostName) >= 5
+//@ extern (*net/url.URL).String
+//@   ensures u.Scheme != "" ==> len(result) >= len(u.Scheme) + 1
+//@ // a resolver answering without error returns at least one record (net.LookupSRV reports "no such host" otherwise): assumed
+//@ extern invoke:(github.com/tmpim/casket/caskethttp/proxy.srvResolver).LookupSRV
+//@   ensures result2 == nil ==> (len(result1) >= 1 && forall(k, 0, len(result1), result1[k] != nil))
+//@ extern (*crypto/tls.Config).Clone
+//@   ensures result != nil
+//@ // representation: a hijacked connection belongs to its transport; the flush writer's interval is the proxy's
+//@ // FlushInterval, which the constructor sets to 250 ms (a negative one would make time.NewTicker panic)
+//@ func (*hijackedConn).Read
+//@   requires c != nil && c.hj != nil && c.Conn != nil
+//@ func (*maxLatencyWriter).flushLoop
+//@   requires m != nil && m.latency > 0 && m.dst != nil
+//@ func (*ReverseProxy).copyResponse
+//@   requires rp != nil && rp.FlushInterval >= 0
